@@ -19,6 +19,9 @@ import (
 	"verifharness/lib/zk"
 
 	"github.com/consensys/gnark/backend"
+	"github.com/consensys/gnark/backend/groth16"
+	"github.com/consensys/gnark/backend/plonk"
+	"github.com/consensys/gnark/frontend"
 	"github.com/consensys/gnark/backend/witness"
 	"github.com/consensys/gnark/constraint/solver"
 	"github.com/consensys/gnark/logger"
@@ -138,10 +141,7 @@ func run(c Case) ev.Outcome {
 		nbRows = g.CS.GetNbConstraints()
 		prove = func(w witness.Witness, po []backend.ProverOption) (any, error) { return g.Prove(w, po...) }
 		verify = func(p any, pub witness.Witness, vo []backend.VerifierOption) error {
-			return zk.VerifyG16(p.(interface{ CurveID() interface{} }), nil, nil)
-		}
-		verify = func(p any, pub witness.Witness, vo []backend.VerifierOption) error {
-			return zk.VerifyG16(asG16(p), g.VK, pub, vo...)
+			return zk.VerifyG16(p.(groth16.Proof), g.VK, pub, vo...)
 		}
 	case "plonk":
 		cs, err := prog.CompileU64(f, prog.SCS, prog.NewCircuit(c.Prog))
@@ -158,7 +158,7 @@ func run(c Case) ev.Outcome {
 		}
 		prove = func(w witness.Witness, po []backend.ProverOption) (any, error) { return g.Prove(w, po...) }
 		verify = func(p any, pub witness.Witness, vo []backend.VerifierOption) error {
-			return zk.VerifyPlonk(asPlonk(p), g.VK, pub, vo...)
+			return zk.VerifyPlonk(p.(plonk.Proof), g.VK, pub, vo...)
 		}
 	}
 	full, err := prog.Witness(f, prog.Assignment(c.Prog, q, outs))
@@ -199,7 +199,7 @@ func run(c Case) ev.Outcome {
 	if err != nil {
 		return ev.Outcome{Violation: "Witness.Public failed: " + err.Error()}
 	}
-	pub2, err := prog.Witness(f, prog.Assignment(c.Prog, q, outs), frontendPublicOnly())
+	pub2, err := prog.Witness(f, prog.Assignment(c.Prog, q, outs), frontend.PublicOnly())
 	if err != nil {
 		return ev.Outcome{Violation: "public-only NewWitness failed: " + err.Error()}
 	}
@@ -209,8 +209,10 @@ func run(c Case) ev.Outcome {
 		}
 	}
 	if c.Mismatch {
+		// the default challenge / folding hash IS sha256, so "default" and "sha256" are
+		// not a mismatch for plonk: always pick a function that differs
 		other := "sha256"
-		if c.HashOpt == "sha256" {
+		if c.HashOpt == "sha256" || c.HashOpt == "default" {
 			other = "sha3"
 		}
 		_, vo2 := options(c, other)
@@ -234,8 +236,12 @@ func setupFailure(c Case, interp prog.Result, err error, classes []string) ev.Ou
 	if interp.ZeroDiv && strings.Contains(msg, "by constant(0)") {
 		return ev.Outcome{Discard: true, DiscardWhy: "constant zero divisor"}
 	}
-	if strings.Contains(msg, "must commit to at least one variable") {
-		return ev.Outcome{Discard: true, DiscardWhy: "commit of constants only"}
+	if strings.Contains(msg, "must commit to at least one variable") ||
+		(zk.NbCommits(c.Prog) > 0 && strings.Contains(msg, "interface conversion: frontend.Variable is *big.Int, not expr.Term")) {
+		// Commit of a value that folds to a constant (e.g. x - x): both builders refuse at
+		// compile time (the sparse builder through a type-assertion panic inside Commit);
+		// committing to constants has no documented meaning, so this is outside the domain
+		return ev.Outcome{Discard: true, DiscardWhy: "commit of a constant-folded value (compile-time refusal)"}
 	}
 	if !interp.OK {
 		// a constant-folded violated assertion is rejected at compile time: fine
